@@ -14,6 +14,7 @@ import (
 // or with the FIRST (member id, generation) it was ever told.
 func TestVerifC13Enum(t *testing.T) {
 	r := verifkit.Start(t, "C13", "enum")
+	gSeedSalt = r.Seed
 	sub := []string{"ta"}
 	spec := gEnumSpec{
 		Cfg: gConfig{Topics: map[string]int{"ta": 2}, Universe: []string{"ta"}, M: 2,
